@@ -499,6 +499,41 @@ def reuse_case(ctx, c, scratch, nsteps=3):
                 ctx.case(key=None)
 
 
+def mode_switch_case(ctx, c, scratch):
+    """ONE model object evaluated with cross-sections, then (global opacity_method switched, k-tables installed) with
+    k-tables, then with cross-sections again: after every switch the spectrum is that of a model freshly built in the mode
+    now in force (a model must not remember the mode it was first evaluated in)"""
+    fam = c['family']
+    kind = 'transmission' if fam == 'transmission' else 'emission'
+    spec = dict(c['spec'], gases=dict(c['spec']['gases']))
+    degenerate = all(np.all(np.asarray(t['kcoeff'], float) == np.asarray(t['kcoeff'], float)[..., :1])
+                     for t in c['tables'].values())
+    xs = xsec_tables(c, 'first' if degenerate else 'avg')
+    case = dict(c, mode_switch=True)
+    with E.CacheState():
+        try:
+            E.install_tables(c['wn'], xs, c.get('cia'), 'xsec')
+            m = E.build_model(kind, dict(spec))
+            first = E.observe_model(m, kind)
+            seq = [('ktables', c['tables']), ('xsec', xs)]
+            for mode, tabs in seq:
+                E.install_tables(c['wn'], tabs, c.get('cia'), mode, scratch, c['weights'])
+                used = E.observe_model(m, kind)
+                fresh = E.observe_model(E.build_model(kind, dict(spec)), kind)
+                ctx.bucket('mode-switch:%s:to-%s' % (fam, mode))
+                ctx.disagreements_checked += 1
+                if used['flux'].shape != fresh['flux'].shape or not C.close(used['flux'], fresh['flux'], rel=1e-9):
+                    ctx.violation('stale-state:mode-switch:' + fam + ':to-' + mode,
+                                  'a model object first evaluated in the other opacity mode does not return the spectrum of a '
+                                  'model freshly built in %s mode' % mode, case, dict(reused=used['flux'], fresh=fresh['flux']))
+                    return
+        except Exception as e:
+            if _invalid_params(ctx, e):
+                return
+            ctx.violation('stale-state:mode-switch-raises:' + fam, 'switching the opacity mode on one model object raised %r'
+                          % (e,), case)
+
+
 def run(ctx):
     validate_transk(ctx)
     scratch = tempfile.mkdtemp(prefix='verif_c20_')
@@ -507,6 +542,10 @@ def run(ctx):
             eval_case(ctx, gen_case(ctx.rng, k, thorough=not ctx.quick), scratch)
         for k in range(ctx.n(60, 1000)):
             reuse_case(ctx, gen_case(ctx.rng, k, thorough=False), scratch)
+        for k in range(ctx.n(40, 600)):
+            c = gen_case(ctx.rng, 2 * k + 1 if k % 2 else 4 * k, thorough=False)
+            if not c.get('multigrid'):
+                mode_switch_case(ctx, c, scratch)
         malformed(ctx, scratch)
     finally:
         shutil.rmtree(scratch, ignore_errors=True)
@@ -516,6 +555,13 @@ def replay(ctx, case):
     case = dict(case)
     case.pop('small', None)
     case.pop('reuse', None)       # a reuse-stream case replays as a fresh run on the final parameter values
+    if case.pop('mode_switch', None):
+        scratch = tempfile.mkdtemp(prefix='verif_c20_')
+        try:
+            mode_switch_case(ctx, case, scratch)
+        finally:
+            shutil.rmtree(scratch, ignore_errors=True)
+        return
     scratch = tempfile.mkdtemp(prefix='verif_c20_')
     try:
         eval_case(ctx, case, scratch)
